@@ -228,6 +228,9 @@ class AbstractDateTime(AnyAtomicType):
     def __hash__(self) -> int:
         # The name of the type is part of the hash: values of different date/time types
         # are never the same key of a map (and comparing some of them is a type error)
+        if 1 <= self._year <= 9999:
+            # The same instant can lie in different local years
+            return hash((self.name, self._dt))
         return hash((self.name, self._dt, self._year))
 
     def __eq__(self, other: object) -> bool:
@@ -274,7 +277,8 @@ class AbstractDateTime(AnyAtomicType):
         else:
             raise TypeError("wrong type %r for operand %r" % (type(other), other))
 
-        if self._year != year:
+        if self._year != year and (abs(self._year - year) > 1 or
+                                   not (1 <= self._year <= 9999 and 1 <= year <= 9999)):
             return op(self._year, year)
         elif self._dt.tzinfo is dt.tzinfo:
             return op(self._dt, dt)
